@@ -48,8 +48,8 @@ def cells(tier, seed):
                         'skip': [rnd.random() < 0.5 for _ in range(J)],
                         'include': [rnd.random() < 0.5 for _ in range(J)]})
     else:
-        for (o, r) in PAIRS:
-            for b, q in FPAIRS[:3]:
+        for (o, r) in PAIRS * 4:
+            for b, q in FPAIRS:
                 for J in (1, 2, 3):
                     out.append({'kind': 'layout', 'biort': b, 'qshift': q, 'J': J,
                                 'shape': list(rnd.choice(SHAPES)), 'o': o, 'r': r,
@@ -57,10 +57,10 @@ def cells(tier, seed):
         for J in (1, 2, 3):
             for skip in itertools.product([False, True], repeat=J):
                 for inc in itertools.product([False, True], repeat=J):
-                    for b, q in FPAIRS[:3]:
+                    for b, q in FPAIRS * 4:
                         out.append({'kind': 'masks', 'biort': b, 'qshift': q, 'J': J,
                                     'shape': list(rnd.choice(SHAPES)), 'skip': list(skip), 'include': list(inc)})
-        for _ in range(200):
+        for _ in range(3000):
             b, q = rnd.choice(FPAIRS)
             out.append({'kind': 'masks', 'biort': b, 'qshift': q, 'J': 4, 'shape': list(rnd.choice(SHAPES)),
                         'skip': [rnd.random() < 0.5 for _ in range(4)],
